@@ -19,6 +19,10 @@ def main():
     for sid in sys.argv[2:]:
         d = os.path.join(src, sid)
         meta = json.load(open(os.path.join(d, "meta.json")))
+        import re as _re
+        ids_ = _re.findall(r"C\d\d", str(meta["property"]))
+        if ids_ and meta["property"] != ids_[0]:
+            meta["property_as_written"], meta["property"] = meta["property"], ids_[0]
         prop = meta["property"]
         wt = tempfile.mkdtemp(prefix="seedwt.", dir="/tmp")
         os.rmdir(wt)
